@@ -229,6 +229,11 @@ def directed():
         ({'type': 'Selector', 'objects': [ev(1), ev(2)], 'names': None, 'default': NONE}, ev(1)),
         ({'type': 'ClassSelector', 'class_': 'bool'}, ev(True)), ({'type': 'ClassSelector', 'class_': 'list'}, ev([1])),
         ({'type': 'List', 'item_type': 'bool', 'min_len': 0, 'max_len': None}, ev([True])),
+        # soft bounds must not reach the schema
+        ({'type': 'Number', 'bounds': [ev(0), ev(10)], 'softbounds': [ev(0), ev(1)]}, ev(7.5)),
+        ({'type': 'Number', 'softbounds': [ev(-1), ev(1)]}, ev(42)),
+        ({'type': 'Integer', 'bounds': [None, ev(10)], 'softbounds': [ev(2), None], 'inclusive': [True, False]}, ev(-3)),
+        ({'type': 'Range', 'bounds': [ev(0), ev(10)], 'softbounds': [ev(1), ev(2)]}, ev((0, 10))),
         # every schema method
         ({'type': 'Integer', 'bounds': [ev(0), ev(5)], 'inclusive': [True, False]}, ev(1)),
         ({'type': 'Number', 'bounds': [None, ev(3)], 'allow_None': True}, ev(1.5)),
